@@ -340,6 +340,7 @@ pub fn run(ctx: &Ctx) -> i32 {
         st.count("full_lattice_builds");
         check_case(ctx, st, inp, Settings::new(f).normalised());
     });
+    if std::env::var("VERIF_TIMING").is_ok() { eprintln!("[timing] c07.rs block 1: {:.1}s", ctx.run.started.elapsed().as_secs_f64()); }
     // lattice with thresholds on repeat-rich inputs
     par_for(&ctx.run, if ctx.thorough { 60_000 } else { 6_000 }, |i, st| {
         let mut rng = Rng::new(seed, 0x70_0000 + i as u64);
@@ -350,6 +351,7 @@ pub fn run(ctx: &Ctx) -> i32 {
         st.count("lattice_with_thresholds");
         check_case(ctx, st, inp, s);
     });
+    if std::env::var("VERIF_TIMING").is_ok() { eprintln!("[timing] c07.rs block 2: {:.1}s", ctx.run.started.elapsed().as_secs_f64()); }
     // random inputs x random lattice points
     let n = if ctx.thorough { 400_000 } else { 40_000 };
     let alphabets: Vec<(String, Vec<String>)> = gen::ALPHABETS.iter().map(|a| (a.to_string(), gen::alphabet(a))).collect();
@@ -367,6 +369,7 @@ pub fn run(ctx: &Ctx) -> i32 {
         st.count(&format!("random_{name}"));
         check_case(ctx, st, &tcs, s);
     });
+    if std::env::var("VERIF_TIMING").is_ok() { eprintln!("[timing] c07.rs block 3: {:.1}s", ctx.run.started.elapsed().as_secs_f64()); }
     // repeated blanks / multi-code-point graphemes at positions without a preceding atom
     let mut det = gen::blank_repeat_cases();
     det.extend(gen::cluster_repeat_cases());
@@ -375,6 +378,7 @@ pub fn run(ctx: &Ctx) -> i32 {
         st.count("blank_and_cluster_repeat_cases");
         check_case(ctx, st, &det[i % det.len()], Settings::new(det_settings[i / det.len()]));
     });
+    if std::env::var("VERIF_TIMING").is_ok() { eprintln!("[timing] c07.rs block 4: {:.1}s", ctx.run.started.elapsed().as_secs_f64()); }
     // periods nested 3, 4 and 5 levels deep around every metacharacter
     let metas = gen::alphabet("meta");
     par_for(&ctx.run, metas.len() * 3 * 4, |i, st| {
@@ -386,6 +390,7 @@ pub fn run(ctx: &Ctx) -> i32 {
         st.count("deeply_nested_periods");
         check_case(ctx, st, &[t], Settings::new(f));
     });
+    if std::env::var("VERIF_TIMING").is_ok() { eprintln!("[timing] c07.rs block 5: {:.1}s", ctx.run.started.elapsed().as_secs_f64()); }
     // builder histories: setters repeated / overridden, builds interleaved, clones — the result of every build
     // must be valid for the settings accumulated at that point
     let n = if ctx.thorough { 100_000 } else { 3_000 };
@@ -418,6 +423,7 @@ pub fn run(ctx: &Ctx) -> i32 {
             }
         }
     });
+    if std::env::var("VERIF_TIMING").is_ok() { eprintln!("[timing] c07.rs block 6: {:.1}s", ctx.run.started.elapsed().as_secs_f64()); }
     {
         let mut st = Stats::new();
         large_inputs(ctx, &mut st);
